@@ -91,7 +91,7 @@ var c15Shapes = []struct {
 	method string
 	shapes []string
 }{
-	{"CreateStream", []string{"new"}},
+	{"CreateStream", []string{"new", "negparts"}},
 	{"DeleteStream", []string{"existing"}},
 	{"PauseStream", []string{"all", "resumeall"}},
 	{"SetStreamReadonly", []string{"on", "off"}},
@@ -108,6 +108,9 @@ var c15Shapes = []struct {
 	{"FetchConsumerGroupAssignments", []string{"victim"}},
 	{"ReportConsumerGroupCoordinator", []string{"victim"}},
 }
+
+// shapes that are invalid requests (no positive control: they are refused whoever sends them)
+var c15InvalidShape = map[string]bool{"CreateStream/negparts": true}
 
 var c15Policies = []string{"allow", "deny", "otheracts", "otherres", "otherclient"}
 
@@ -866,6 +869,13 @@ func (e *c15Env) call(method, shape, polName, mode, identity string) (own bool, 
 	case "CreateStream/new":
 		do = func(ctx context.Context) error {
 			_, err := api.CreateStream(ctx, &client.CreateStreamRequest{Name: R, Subject: R + ".in", Partitions: 1})
+			return err
+		}
+	case "CreateStream/negparts":
+		// a request no client library builds but any gRPC client can send: a NEGATIVE partition count. Invalid whoever
+		// sends it; from a caller without the entry it must be refused like any other call - without any effect on the server
+		do = func(ctx context.Context) error {
+			_, err := api.CreateStream(ctx, &client.CreateStreamRequest{Name: R, Subject: R + ".in", Partitions: -1 - int32(len(R)%3)})
 			return err
 		}
 	case "DeleteStream/existing":
@@ -1917,6 +1927,12 @@ func c15RunCase(e *c15Env, m *vModel, res *vResult, lines []string) {
 				} else if !seen {
 					res.Fail(vFailure{Kind: "disagreement", Case: one, Impl: impl, Model: []string{ans},
 						Detail: "observer blind: the call was granted but the expected effect " + want + " was not observed (" + out.errText + ")"})
+				}
+			} else if c15InvalidShape[method+"/"+shape] {
+				// an invalid request: refused (not as unauthorised) and without effect also when the caller holds the entry
+				if !out.refused || len(out.kinds) > 0 {
+					c15Spec(res, vFailure{Kind: "spec", Case: one, Impl: impl, Tag: "authz-invalid-request-accepted:" + method,
+						Detail: fmt.Sprintf("an invalid request was not refused / had effects %v", out.kinds)})
 				}
 			} else if out.refused {
 				res.Fail(vFailure{Kind: "disagreement", Case: one, Impl: impl, Model: []string{ans},
